@@ -460,6 +460,9 @@ def step (ds : DS) (op implFull : String) : DS × StepOut :=
   | ["badsend", _] => badOp
   | ["badcall", _] => badOp
   | ["baddcast", _] => badOp
+  | ["baddsend", _] => badOp
+  | ["baddcall", _] => badOp
+  | ["baddafter", _] => badOp
   | ["exit", a] =>
     match a.toNat? with
     | some a =>
